@@ -239,6 +239,20 @@ def run(ctx):
             det = term_str(r)
             if ok:
                 ad = strip_refs(call_args(r)[0])
+                # a trailing element-wise `.map(|x| <a view of x>)` (as_os_str, as_ref, deref ..) changes neither which entries are emitted nor their order
+                if is_call(ad, "Iterator::map", "::map") and len(call_args(ad)) == 2 and vs["kind"] == "filter_map":
+                    mc = strip_refs(call_args(ad)[1])
+                    view = False
+                    if isinstance(mc, tuple) and mc[:2] == ("agg", "closure"):
+                        rr = [q.end[1] for q in ret_paths(ctx.paths(mc[2]) or [])]
+                        if len(rr) == 1:
+                            x = strip_refs(rr[0])
+                            for _ in range(4):
+                                if is_call(x, "::as_os_str", "::as_ref", "Deref>::deref", "::as_path", "::as_str", "::as_slice") and len(call_args(x)) == 1:
+                                    x = strip_refs(call_args(x)[0])
+                            view = x == ("param", 2)
+                    if view:
+                        ad = strip_refs(call_args(ad)[0])
                 ok = is_call(ad, "::" + vs["kind"])
                 if ok:
                     src = strip_refs(call_args(ad)[0])
